@@ -144,6 +144,32 @@ def run_case(chk, strategy, storage_kind, d, m, n, subset_kind):
                                           f"feature in any CURRENTLY stored observation (stale background)"), None
                         if strategy == "joint" and len(set.intersection(*[set(v) for v in per_f.values()])) == 0:
                             return desc, "after further storage updates: joint strategy mixed stored observations", None
+    # ---- the caller reuses ONE mutable subset object and shrinks it in place between calls (IncrementalSage does exactly this)
+    if len(names) >= 2:
+        for container in (set, list):
+            sub = container(names)
+            with warnings.catch_warnings():
+                warnings.simplefilter("ignore")
+                with draws.installed():
+                    while True:
+                        seen_inputs.clear()
+                        try:
+                            imp.impute(sub, x, 1)
+                        except Exception as ex:
+                            return desc, f"impute with a reused {container.__name__} subset raised {core.err_kind(ex)}: {ex}", None
+                        for z in seen_inputs:
+                            for f in names:
+                                if f not in sub and z[f] != x[f]:
+                                    return desc, (f"second call with the same {container.__name__} object shrunk in place to {sorted(map(str, sub))}: feature {f!r} "
+                                                  f"outside the subset was replaced ({x[f]} -> {z[f]})"), None
+                                if f in sub and strategy == "default" and not (z[f] == values[f]):
+                                    return desc, f"reused subset object: feature {f!r} inside the subset kept {z[f]!r} instead of the default", None
+                        if not sub:
+                            break
+                        if container is set:
+                            sub.remove(sorted(sub, key=str)[0])
+                        else:
+                            sub.pop()
     # ---- sparse instance (a requested feature is missing from the instance) and a model that raises: never modify the instance
     if S:
         xs = {k: v for k, v in x.items() if k != S[0]}
